@@ -521,6 +521,74 @@ func literalField(fd *ast.FuncDecl, name string) (string, bool) {
 	return res, found
 }
 
+// stmtsBeforeRange renders, in source order, the statements that precede the `for ... range <over>` statement in its block,
+// starting at the last one that calls io.Copy: assignments and calls as their expressions, an if statement as
+// "if <cond> { ...; return }" when its body ends in a return (and "if <cond> {...}" otherwise).
+func stmtsBeforeRange(fd *ast.FuncDecl, over string) ([]string, bool) {
+	if fd == nil {
+		return nil, false
+	}
+	var out []string
+	found := false
+	ast.Inspect(fd.Body, func(n ast.Node) bool {
+		var list []ast.Stmt
+		switch b := n.(type) {
+		case *ast.BlockStmt:
+			list = b.List
+		case *ast.CaseClause:
+			list = b.Body
+		case *ast.CommClause:
+			list = b.Body
+		default:
+			return true
+		}
+		for i, st := range list {
+			rs, ok := st.(*ast.RangeStmt)
+			if !ok || types.ExprString(rs.X) != over || found {
+				continue
+			}
+			found = true
+			start := 0
+			render := func(st ast.Stmt) string {
+				switch x := st.(type) {
+				case *ast.ExprStmt:
+					return types.ExprString(x.X)
+				case *ast.AssignStmt:
+					var r []string
+					for _, e := range x.Rhs {
+						r = append(r, types.ExprString(e))
+					}
+					var l []string
+					for _, e := range x.Lhs {
+						l = append(l, types.ExprString(e))
+					}
+					return strings.Join(l, ", ") + " " + x.Tok.String() + " " + strings.Join(r, ", ")
+				case *ast.IfStmt:
+					ends := false
+					if k := len(x.Body.List); k > 0 {
+						_, ends = x.Body.List[k-1].(*ast.ReturnStmt)
+					}
+					if ends && x.Else == nil && x.Init == nil {
+						return "if " + types.ExprString(x.Cond) + " { ...; return }"
+					}
+					return "if " + types.ExprString(x.Cond) + " {...}"
+				}
+				return fmt.Sprintf("%T", st)
+			}
+			for j := 0; j < i; j++ {
+				if strings.Contains(render(list[j]), "io.Copy(") {
+					start = j
+				}
+			}
+			for j := start; j < i; j++ {
+				out = append(out, render(list[j]))
+			}
+		}
+		return true
+	})
+	return out, found
+}
+
 // goStmts lists "<func>: go <callee>" for every go statement of the package ("go func" for a function literal).
 func goStmts(p *pkg) []string {
 	fns := p.allFuncs()
@@ -1076,6 +1144,13 @@ func main() {
 			}
 			e.strs("serverLimitCalls", append(limitCalls(s, nil), timeoutFields(s)...), true, nil, "server package: deadline / limit / socket-option calls and timeout fields (none)")
 			e.strs("serverHTTPServerFields", fields, true, nil, "server package: fields set in http.Server literals (none: no such literal)")
+			{
+				sv := s.methodDecl("proxy", "ServeHTTP")
+				v, ok := stmtsBeforeRange(sv, "resp.Trailer")
+				e.strs("frontendBeforeTrailers", v, ok, []string{"_, err := io.Copy(w, resp.Body)", "resp.Body.Close()", "if err != nil { ...; return }"},
+					"server proxy.ServeHTTP: what happens between the relay of the body and the reading of resp.Trailer (the trailers are read only when the relay reached the end of the body: if the client went away the agent may still be uploading, and net/http fills resp.Trailer in from that other goroutine)")
+			}
+			e.strs("serverGoroutines", goStmts(s), true, nil, "server package: every goroutine started by the proxy's own code (none: whatever is written to a client's http.ResponseWriter is written by that client's own handler, before it returns)")
 		}
 		nid := s.methodDecl("proxy", "newID")
 		e.strs("newIDCallees", calleesIn(nid), nid != nil, []string{"p.Lock", "p.randGenerator.Int63", "p.Unlock", "sha256.Sum256", "[]byte", "fmt.Sprintf", "fmt.Sprintf"},
